@@ -1,0 +1,30 @@
+//go:build verif && !genjs
+
+/*
+ Verification hooks (build tag "verif" only; not part of the library).
+ They expose the internal formatter so that arbitrary position-less syntax
+ trees can be printed by the verification harness in /verif.
+*/
+
+package gogen
+
+import (
+	"go/ast"
+	"go/token"
+	"io"
+
+	"github.com/goplus/gogen/internal/go/format"
+	"github.com/goplus/gogen/internal/go/printer"
+)
+
+// VerifFormatNode prints node (an *ast.File, declaration, statement or expression) with the
+// formatter the package writer uses.
+func VerifFormatNode(dst io.Writer, fset *token.FileSet, node any) error {
+	return format.Node(dst, fset, node)
+}
+
+// VerifFormatCommented prints file with comment groups attached to statements, exactly as
+// Package.WriteTo does for statements that were given comments through CodeBuilder.SetComments.
+func VerifFormatCommented(dst io.Writer, fset *token.FileSet, file *ast.File, comments map[ast.Stmt]*ast.CommentGroup) error {
+	return format.Node(dst, fset, &printer.CommentedNodes{Node: file, CommentedStmts: comments})
+}
